@@ -13,9 +13,9 @@ CLAIMED = {
    note="Interleavings at yield sites only (harness handler boundaries, writer calls, verif-tagged sites in rux). Race detector blind spots (library-internal pools adding edges, bounded TSan history) can hide a race, never invent one. Trusted: the harness, Go's race detector. A further profile per property (*-pre) repeats the concurrent worlds in a binary built against a scratch copy of the working tree in which instr/ has woven a scheduler yield before every statement of package rux, under a seeded random-walk scheduler: tasks are preempted between any two statements of rux, not only at hooks (DESIGN.md 3.7a).",
    ref="DESIGN.md §4.1"),
  "C08": dict(
-   technique="deterministic simulation with writer fault injection: seeded handler operation programs against a fault-injecting simulated ResponseWriter; trace-driven state-machine model of the lazy header commit",
+   technique="deterministic simulation with writer fault injection: seeded handler operation programs against a fault-injecting simulated ResponseWriter; trace-driven state-machine model of the lazy header commit; concurrent worlds also under statement-level preemption and under the race detector",
    text="Seeded programs of up to 12 status/header/write/flush/helper operations spread over the handlers of a chain, against an underlying writer with a seeded plan of short writes and errors, alone and inside concurrent worlds; the underlying call log must equal what a three-state commit model produces from the operations recorded in the request's own trace. Sampling, not enumeration.",
-   note="The simulated writer commits like net/http's (a Write/Flush before WriteHeader is logged as an implicit 200). StatusCode() after the commit is deliberately not asserted (a suite test pins the opposite). Requests answered by rux's built-in 404/405 handlers are judged structurally only.",
+   note="The simulated writer commits like net/http's (a Write/Flush before WriteHeader is logged as an implicit 200). StatusCode() after the commit is deliberately not asserted (a suite test pins the opposite). Requests answered by rux's built-in 404/405 handlers are judged structurally only. Two further profiles repeat the concurrent worlds (a) in the binary built against a scratch copy of the working tree in which instr/ has woven a scheduler yield before every statement of package rux, under a seeded random-walk scheduler (a request can be suspended between the pool Put and the return of ServeHTTP, DESIGN.md 3.7a), and (b) in the -race build with coarse schedules.",
    ref="DESIGN.md §4.5"),
  "C09": dict(
    technique="deterministic simulation with crash injection: seeded handler panics at every script position, in sequential histories and concurrent worlds with immediate context reuse; call-log model + fresh-router twin for the requests that follow",
@@ -102,7 +102,7 @@ def main():
                      "kind_free_text": "go/ast tool run by ./check: copies /repo's working tree to a scratch directory with a scheduler yield woven before every statement of package rux; the ruxsim-pre binary (statement-level preemption profiles) is built against that copy, which is deleted afterwards"}],
         "checks": checks,
         "not_applicable": na,
-        "notes": "Exit 2 from a check means infrastructure trouble (build failure, watchdog, nondeterminism), never a verdict. known_findings.json lists recorded and fixed defects. ./check builds three binaries from /repo's working tree on every invocation (plain, -race, and for C03/C07/C10/C14 the statement-instrumented one); nothing under /tmp outlives a command.",
+        "notes": "Exit 2 from a check means infrastructure trouble (build failure, watchdog, nondeterminism), never a verdict. known_findings.json lists recorded and fixed defects. ./check builds three binaries from /repo's working tree on every invocation (plain, -race, and for C03/C07/C08/C10/C14 the statement-instrumented one); nothing under /tmp outlives a command.",
     }
     json.dump(m, open("/verif/MANIFEST.json", "w"), indent=1)
     print("checks:", [c["property_id"] for c in checks], "not_applicable:", [n["property_id"] for n in na])
